@@ -2,6 +2,8 @@ import OpusProofs.SilkParamsNlsf
 import OpusProofs.SilkParamsLpc
 import OpusProofs.SilkParamsGains
 import OpusProofs.SilkParamsDec
+import OpusProofs.SilkParamsRangeNlsf2a
+import OpusProofs.SilkParamsRangeBridge
 /-
   C18 — SILK side information always dequantises to stable, in-range parameters.
 
@@ -10,14 +12,27 @@ import OpusProofs.SilkParamsDec
   `I16`/`AllI16` (fits opus_int16), `SpacedFrom 0 x d` (x[0] ≥ d[0], x[i] ≥ x[i-1] + d[i],
   x[L-1] + d[L] ≤ 2^15), `StrictInc`.
 
+  Range theorems (second half of the file).  The model computes in unbounded `Int` and applies
+  `wrap32`/`wrap16` only where the C code has an explicit narrowing.  For every modelled function
+  a *trace* function (OpusProofs/SilkParamsRange*.lean) lists every value the C code holds in an
+  `int`/`opus_int32` (results of plain `+ - *`, operands of `(opus_int32)` casts) and a *casts*
+  function lists the operands of the conversions to `opus_int16`; the theorems say `I32` resp.
+  `I16` of all of them on the input domain the decoder guarantees.
+
   Full statement that is NOT proved (kept here as required by the conventions):
 
-    theorem lpc_fit_int16 (a32 : List Int) (h : ∀ e ∈ a32, -2^31 ≤ e ∧ e < 2^31) :
-        ∀ e ∈ (lpcFitLoop 5 10 a32 0).1, I16 (rshiftRound e 5)  -- when the loop exits early
-    -- i.e. the `(opus_int16)` casts of silk_LPC_fit and of the re-quantisation inside the
-    -- stabilisation loop of silk_NLSF2A never truncate.  The model applies the truncation
-    -- (`wrap16`), so the theorems below hold regardless; what is missing is the proof that the
-    -- truncation is the identity (design priority P1).
+    theorem nlsf2a_nowrap_d16 (nlsf : List Int) (hd : nlsf.length = 16)
+        (hr : ∀ e ∈ nlsf, 0 ≤ e ∧ e ≤ 32767) (hord : nlsf.Pairwise (· ≤ ·)) :
+        ∃ c, nlsf2aCosQA nlsf = .ok c ∧ ∀ e ∈ nlsf2aPoly c, -2147483647 ≤ e ∧ e ≤ 2147483647
+    -- i.e. for ORDERED NLSFs of order 16 the final subtraction `a32_QA1[k] = ∓Qtmp - Ptmp`
+    -- (NLSF2A.c:125-126) fits 32 bits.  Proved instead (`nlsf2a_nowrap_d16_partial`): everything
+    -- before that subtraction fits for all in-range inputs, everything after it fits whenever
+    -- `a32_QA1` does, and the subtraction itself DOES overflow for the unordered in-range input
+    -- 32767,0,32767,0,… (`nlsf2a_d16_unordered_overflows`), so ordering is necessary.  That
+    -- ordering is sufficient is the classical fact that interlaced line spectral frequencies give
+    -- a minimum-phase A(z) whose coefficients are bounded by C(16,k) ≤ 12870 (·2^17 = 0.79·2^31);
+    -- it needs root-location arguments that are out of reach here.  Search: maximum over ordered
+    -- inputs found by hill climbing is exactly that value (all NLSFs equal 0).
 -/
 namespace OpusProps.C18
 open Opus Opus.SilkParams Opus.Gen
@@ -209,5 +224,207 @@ theorem pitch_in_range (lagIndex contour fs : Int) (nb : Nat)
 
 example : decodePitch 100 33 16 4 = .ok [123, 129, 135, 141] ∧ decodePitch (-7) 2 8 2 = .ok [16, 16] ∧
     pitchCodebook 16 4 = .ok (SilkNlsf.cbLagsStage3, 34) := by decide +kernel
+
+/-! ## Range theorems: no 32-bit wrap, no truncating `(opus_int16)` cast -/
+
+/-- `silk_bwexpander_32` (bwexpander_32.c:36-51) with a chirp factor `0 ≤ chirp_Q16 ≤ 65536` — all
+    callers modelled here: `silk_LPC_fit` passes a value in [13040, 65470], the stabilisation loop of
+    `silk_NLSF2A` passes `65536 - (2 << i)`, i ≤ 15 — and `opus_int32` coefficients: every value of
+    `bwexpTrace` (the operand of the `(opus_int32)` cast of each `silk_SMULWW`, the 32-bit product
+    `silk_MUL( chirp_Q16, chirp_minus_one_Q16 )`, both steps of `silk_RSHIFT_ROUND`, each new
+    `chirp_Q16`) fits 32 bits, and every output coefficient lies between its input and 0 (here:
+    inside any interval `[lo, hi] ∋ 0` containing the inputs). -/
+theorem bwexpander32_nowrap (ar : List Int) (chirp lo hi : Int) (h0 : 0 ≤ chirp) (h1 : chirp ≤ 65536)
+    (hlo0 : -2147483648 ≤ lo) (hlo : lo ≤ 0) (hhi : 0 ≤ hi) (hhi1 : hi ≤ 2147483647)
+    (hx : ∀ x ∈ ar, lo ≤ x ∧ x ≤ hi) :
+    I32 (chirp - 65536) ∧ (∀ v ∈ bwexpTrace ar chirp (chirp - 65536), I32 v) ∧
+    (∀ e ∈ bwexpander32 ar chirp, lo ≤ e ∧ e ≤ hi) :=
+  bwexpander32_range ar chirp lo hi h0 h1 hlo0 hlo hhi hhi1 hx
+
+example : bwexpander32 [2147483647, -2147483648, 5] 65470 = [2145320959, -2143158272, 4] ∧
+    bwexpTrace [7, -7] 65534 (-2) = [6, -131068, -3, -2, 65532, -7] := by decide +kernel
+
+/-- P1 `lpc_fit_int16` (DESIGN §7.C18).  For every `a32_QA1` of 1..16 values of magnitude at most
+    `2^31 - 1` (every `opus_int32` except `silk_int32_MIN`, whose `silk_abs` would overflow):
+    in `silk_LPC_fit( a_Q12, a32_QA1, 12, 17, d )` and in the stabilisation loop of `silk_NLSF2A`
+    that follows it (1) no 32-bit value wraps (`nlsf2aTailTrace`: every `silk_abs`, the steps of
+    `silk_RSHIFT_ROUND`, `maxabs - 32767`, its `<< 14`, `silk_MUL( maxabs, idx+1 )`, the quotient,
+    `chirp_Q16`, the traces of `silk_bwexpander_32`, `silk_LSHIFT( 2, i )`), (2) no `silk_DIV32`
+    divisor is 0, (3) NO `(opus_int16)` CAST TRUNCATES (`nlsf2aCasts`: the operands of the casts of
+    LPC_fit.c:74,79 and of NLSF2A.c:136, all iterations), (4) hence the model's `wrap16` in `lpcFit`
+    is the identity: its first component is the list of un-truncated cast operands. -/
+theorem lpc_fit_int16 (a32 : List Int) (hne : a32 ≠ []) (hlen : a32.length ≤ 16)
+    (ha : ∀ e ∈ a32, -2147483647 ≤ e ∧ e ≤ 2147483647) :
+    (∀ v ∈ nlsf2aTailTrace a32, I32 v) ∧ (∀ v ∈ lpcFitLoopDivisors 10 a32 0, v ≠ 0) ∧
+    (∀ v ∈ nlsf2aCasts a32, I16 v) ∧ (lpcFit a32 5).1 = lpcFitCasts a32 :=
+  ⟨(nlsf2aTail_range a32 hne hlen ha).1, (nlsf2aTail_range a32 hne hlen ha).2.1,
+   (nlsf2aTail_range a32 hne hlen ha).2.2, (lpcFit_range a32 hne hlen ha).2.2.2.1⟩
+
+/- a filter that needs the limiter (first coefficient 100 in Q12 = 13107200 in Q17) and then fails the
+   stability test, so that both kinds of cast are exercised -/
+example : lpcFitCasts [13107200, -2147483647, 77, 2147483647] = [9046, -32728, 0, 16] ∧
+    (nlsf2aCasts [13107200, -2147483647, 77, 2147483647]).length = 64 ∧
+    lpcFitLoopDivisors 10 [13107200, -2147483647, 77, 2147483647] 0 =
+      [81919, 81919, 81919, 81919, 81919, 81919, 71586, 26937, 17374] := by decide +kernel
+
+/-- `silk_NLSF2A` for order 10 (NB/MB), EVERY input with `0 ≤ NLSF[k] ≤ 32767` (no ordering needed):
+    all table reads in bounds and no 32-bit wrap in the cosine interpolation (`cosLsfTrace`), none in
+    `silk_NLSF2A_find_poly`, `Ptmp`, `Qtmp`, `-Qtmp` (`nlsf2aPolyTrace`; majorant `C(10,n)·2^16`),
+    `a32_QA1` fits (`|·| ≤ 4·C(10,5)·2^16 = 66060288`), and with it everything of `lpc_fit_int16`:
+    the whole of `silk_NLSF2A` runs without signed overflow and without a truncating cast. -/
+theorem nlsf2a_nowrap_d10 (nlsf : List Int) (hd : nlsf.length = 10) (hr : ∀ e ∈ nlsf, 0 ≤ e ∧ e ≤ 32767) :
+    (∀ x ∈ nlsf, ∃ c cv nx, cosLsf x = .ok c ∧ getI SilkNlsf.lsfCosTabQ12 (x / 256) = .ok cv ∧
+        getI SilkNlsf.lsfCosTabQ12 (x / 256 + 1) = .ok nx ∧ ∀ v ∈ cosLsfTrace x cv nx, I32 v) ∧
+    ∃ c, nlsf2aCosQA nlsf = .ok c ∧ (∀ v ∈ nlsf2aPolyTrace c, I32 v) ∧
+      (∀ e ∈ nlsf2aPoly c, -66060288 ≤ e ∧ e ≤ 66060288) ∧
+      (∀ v ∈ nlsf2aTailTrace (nlsf2aPoly c), I32 v) ∧ (∀ v ∈ lpcFitLoopDivisors 10 (nlsf2aPoly c) 0, v ≠ 0) ∧
+      (∀ v ∈ nlsf2aCasts (nlsf2aPoly c), I16 v) ∧
+      nlsf2a nlsf = .ok (nlsf2aLoop SilkNlsf.maxLpcStabilizeIterations 0 (lpcFit (nlsf2aPoly c) 5).2
+        (lpcFit (nlsf2aPoly c) 5).1) := by
+  refine ⟨fun x hx => ?_, ?_⟩
+  · obtain ⟨c, cv, nx, h1, h2, h3, h4, _⟩ := cosLsf_range x (hr x hx).1 (hr x hx).2
+    exact ⟨c, cv, nx, h1, h2, h3, h4⟩
+  · obtain ⟨c, hc, hcl, hcb⟩ := nlsf2aCosQA_range nlsf hr
+    have hp := nlsf2aPoly_range c 16515072 hcb (Or.inl ⟨by omega, rfl⟩)
+    have ht := nlsf2aTail_range (nlsf2aPoly c)
+      (by intro h; have := hp.2.2; rw [h] at this; simp at this; omega) (by rw [hp.2.2]; omega)
+      (fun e he => by have := hp.2.1 e he; omega)
+    exact ⟨c, hc, hp.1, fun e he => by have := hp.2.1 e he; omega, ht.1, ht.2.1, ht.2.2,
+      (nlsf2a_eq nlsf c (Or.inl hd) hc).2⟩
+
+example : nlsf2aA32 [32767, 0, 32767, 0, 32767, 0, 32767, 0, 32767, 0] =
+    .ok [0, -7208960, 0, -43253760, 0, -60555264, 0, -21626880, 0, -1441792] := by decide +kernel
+
+/-- `silk_NLSF2A` for order 16 (WB), every input with `0 ≤ NLSF[k] ≤ 32767`: cosine interpolation,
+    `silk_NLSF2A_find_poly` (majorant `C(16,n)·2^16 ≤ 843448320`), `Ptmp`, `Qtmp`, `-Qtmp` fit 32
+    bits; `a32_QA1` is bounded by `4·C(16,8)·2^16 = 3373793280` (33 bits) only; and IF `a32_QA1`
+    fits (`|a32_QA1[k]| ≤ 2^31 - 1`), everything after it is free of wrap and truncation.
+    PARTIAL: what is missing is that the hypothesis `hA` holds for ORDERED inputs — the domain the
+    decoder guarantees (`nlsf_decode_ordered` gives strictly increasing NLSFs; the interpolation of
+    two non-decreasing vectors is non-decreasing).  It cannot be dropped:
+    `nlsf2a_d16_unordered_overflows`. -/
+theorem nlsf2a_nowrap_d16_partial (nlsf : List Int) (hd : nlsf.length = 16)
+    (hr : ∀ e ∈ nlsf, 0 ≤ e ∧ e ≤ 32767) :
+    (∀ x ∈ nlsf, ∃ c cv nx, cosLsf x = .ok c ∧ getI SilkNlsf.lsfCosTabQ12 (x / 256) = .ok cv ∧
+        getI SilkNlsf.lsfCosTabQ12 (x / 256 + 1) = .ok nx ∧ ∀ v ∈ cosLsfTrace x cv nx, I32 v) ∧
+    ∃ c, nlsf2aCosQA nlsf = .ok c ∧ (∀ v ∈ nlsf2aPolyTrace c, I32 v) ∧
+      (∀ e ∈ nlsf2aPoly c, -3373793280 ≤ e ∧ e ≤ 3373793280) ∧
+      nlsf2a nlsf = .ok (nlsf2aLoop SilkNlsf.maxLpcStabilizeIterations 0 (lpcFit (nlsf2aPoly c) 5).2
+        (lpcFit (nlsf2aPoly c) 5).1) ∧
+      ((hA : ∀ e ∈ nlsf2aPoly c, -2147483647 ≤ e ∧ e ≤ 2147483647) →
+        (∀ v ∈ nlsf2aTailTrace (nlsf2aPoly c), I32 v) ∧ (∀ v ∈ lpcFitLoopDivisors 10 (nlsf2aPoly c) 0, v ≠ 0) ∧
+        (∀ v ∈ nlsf2aCasts (nlsf2aPoly c), I16 v)) := by
+  refine ⟨fun x hx => ?_, ?_⟩
+  · obtain ⟨c, cv, nx, h1, h2, h3, h4, _⟩ := cosLsf_range x (hr x hx).1 (hr x hx).2
+    exact ⟨c, cv, nx, h1, h2, h3, h4⟩
+  · obtain ⟨c, hc, hcl, hcb⟩ := nlsf2aCosQA_range nlsf hr
+    have hp := nlsf2aPoly_range c 843448320 hcb (Or.inr ⟨by omega, rfl⟩)
+    refine ⟨c, hc, hp.1, fun e he => by have := hp.2.1 e he; omega, (nlsf2a_eq nlsf c (Or.inr hd) hc).2, ?_⟩
+    intro hA
+    exact nlsf2aTail_range (nlsf2aPoly c)
+      (by intro h; have := hp.2.2; rw [h] at this; simp at this; omega) (by rw [hp.2.2]; omega) hA
+
+/- the hypothesis `hA` is satisfiable: a stabilised WB vector -/
+example : nlsf2aA32 [1500, 3000, 5000, 7000, 9000, 11000, 13000, 15000, 17000, 19000, 21000, 23000, 25000,
+    27000, 29000, 31000] = .ok [49636, 29459, 1136, 8598, -1332, 3676, -1893, 1594, -2058, 437,
+    -1910, -168, -1538, -400, -969, -278] := by decide +kernel
+
+/-- FINDING (not reachable from the decoder, whose NLSFs are ordered): on the in-range input
+    `32767,0,32767,0,…` of order 16, `a32_QA1[7] = -Qtmp - Ptmp = -3186360320` and
+    `a32_QA1[9] = Qtmp - Ptmp = -2549088256` do not fit 32 bits — signed integer overflow (undefined
+    behaviour) at NLSF2A.c:125-126; UBSan on the real function reports
+    "-1593180160 - 1593180160 cannot be represented in type 'int'".  On such inputs the model
+    (unbounded subtraction) and the C code differ, so `nlsf2a_passes_stability` speaks about the C
+    function only where `a32_QA1` fits: order 10 always, order 16 for ordered NLSFs (unproved). -/
+theorem nlsf2a_d16_unordered_overflows :
+    nlsf2aA32 [32767, 0, 32767, 0, 32767, 0, 32767, 0, 32767, 0, 32767, 0, 32767, 0, 32767, 0] =
+      .ok [0, -17825792, 0, -311951360, 0, -1622147072, 0, -3186360320, 0, -2549088256, 0, -811073536,
+           0, -89128960, 0, -2228224] ∧ ¬ I32 (-3186360320) :=
+  ⟨nlsf2a_a32_overflow_witness, by decide⟩
+
+/-- `silk_NLSF_decode` (NLSF_decode.c:64-92) up to the call of the stabiliser, for both codebooks,
+    every first-stage index `< nVectors` and every residual vector in `[-10, 10]^order` — the domain
+    the symbol decoder guarantees (`nlsf_decode_domain_from_decoder`): `silk_NLSF_unpack` succeeds with
+    `ec_ix[]` fitting its `opus_int16`; in `silk_NLSF_residual_dequant` every `int` value
+    (`resDequantTrace`: the `silk_SMULBB` product, `pred_Q10`, `indices[i] << 10`, the adjusted level,
+    the `silk_SMLAWB` shift and sum) fits 32 bits and every conversion to `opus_int16`
+    (`resDequantCasts`: both operands of `silk_SMULBB`, the step size inside `silk_SMLAWB`, the store
+    `x_Q10[i] = out_Q10`) is lossless (`|x_Q10[i]| ≤ 1825·(order-i) ≤ 29200`); in the first-stage loop
+    `res_Q10[i] << 14`, the quotient, `CB1_NLSF_Q8[i] << 7` and `NLSF_Q15_tmp` fit 32 bits and the
+    `(opus_int16)` cast after `silk_LIMIT( ·, 0, 32767 )` is lossless. -/
+theorem nlsf_decode_nowrap (cb : NlsfCB) (hcb : cb = cbNbMb ∨ cb = cbWb) (cb1 : Nat) (h1 : cb1 < cb.nVectors)
+    (idx : List Int) (hlen : idx.length = cb.order) (hidx : ∀ i ∈ idx, -10 ≤ i ∧ i ≤ 10) :
+    ∃ ec pred, nlsfUnpack cb (cb1 : Int) = .ok (ec, pred) ∧ (∀ e ∈ ec, I16 e) ∧
+      (∀ v ∈ resDequantTrace cb.quantStepSizeQ16 idx pred, I32 v) ∧
+      (∀ v ∈ resDequantCasts cb.quantStepSizeQ16 idx pred, I16 v) ∧
+      (∀ v ∈ firstStageTraceAll (resDequant cb.quantStepSizeQ16 idx pred).1
+          ((cb.cb1WghtQ9.drop (cb1 * cb.order)).take cb.order)
+          ((cb.cb1NlsfQ8.drop (cb1 * cb.order)).take cb.order), I32 v) ∧
+      (∀ x ∈ zip3With nlsfFirstStage (resDequant cb.quantStepSizeQ16 idx pred).1
+          ((cb.cb1WghtQ9.drop (cb1 * cb.order)).take cb.order)
+          ((cb.cb1NlsfQ8.drop (cb1 * cb.order)).take cb.order), 0 ≤ x ∧ x ≤ 32767) :=
+  nlsfDecode_range cb hcb cb1 h1 idx hlen hidx
+
+example : (resDequant 11796 [10, 10, 10, 10, 10, 10, 10, 10, 10, 10] [255, 255, 255, 255, 255, 255, 255, 255, 255, 255]).1 =
+    [17916, 16156, 14389, 12615, 10834, 9046, 7251, 5449, 3640, 1824] := by decide +kernel
+
+/-- The hypotheses of `nlsf_decode_nowrap` and `gains_dequant_nowrap` are what `silk_decode_indices`
+    guarantees: from C03's `IndicesOk` (conclusion of `OpusProps.C03.silkSyms_decode_indices_in_range`,
+    for every range-decoder state) the first-stage index is below `nVectors` of the rate's codebook,
+    there are `order` residuals, each in `[-10, 10]`, every gain index is `< 64`, the interpolation
+    factor is `≤ 4`. -/
+theorem nlsf_decode_domain_from_decoder {rate : Opus.SilkSyms.Rate} {nb cc ps : Nat} {pl : Int}
+    {ix : Opus.SilkSyms.Indices} (h : Opus.SilkSymsProofs.IndicesOk rate nb cc ps pl ix) :
+    (cbOfRate rate = cbNbMb ∨ cbOfRate rate = cbWb) ∧
+    ix.nlsf0 < (cbOfRate rate).nVectors ∧ ix.nlsfRes.length = (cbOfRate rate).order ∧
+    (∀ r ∈ ix.nlsfRes, -10 ≤ r ∧ r ≤ 10) ∧ (∀ g ∈ ix.gains, g < 64) ∧ ix.interp ≤ 4 :=
+  ⟨cbOfRate_cases rate, indicesOk_domain h⟩
+
+example : (cbOfRate .wb).order = 16 ∧ (cbOfRate .nb).nVectors = 32 := by decide
+
+/-- `silk_log2lin` (log2lin.c:36-57) on its whole non-saturating domain `0 ≤ inLog_Q7 < 3967`
+    (outside it the function returns a constant without arithmetic): every 32-bit value
+    (`log2linTrace`: `1 << (inLog_Q7 >> 7)`, `frac_Q7`, `128 - frac_Q7`, the `silk_SMULBB` product, the
+    `silk_SMLAWB` shift and sum, the `silk_MUL`/`silk_MLA` product and the final sum — up to
+    `2139095040 < 2^31` at 3966) fits, the macro casts are the identity (`log2lin = log2linExact`), and
+    the result is positive. -/
+theorem log2lin_nowrap (x : Int) (h0 : 0 ≤ x) (h1 : x < 3967) :
+    (∀ v ∈ log2linTrace x, I32 v) ∧ log2lin x = log2linExact x ∧ 0 < log2lin x :=
+  log2lin_range x h0 h1
+
+example : log2linTrace 3966 = [30, 1073741824, 126, 2, 252, -1, 125, 8388608, 1048576000, 2122317824] ∧
+    log2lin 3966 = 2122317824 := by decide +kernel
+
+/-- `silk_gains_dequant` (gain_quant.c:108-128), 32-bit side (the `opus_int8` stores are
+    `gain_step_nowrap`): for `opus_int8` index and previous index the `int` values of the index update
+    (`ind_tmp`, `double_step_size_threshold`, `ind_tmp << 1`, the sums) fit; for the clamped index
+    `0 ≤ *prev_ind ≤ 63` the operand of the `(opus_int32)` cast of `silk_SMULWB( INV_SCALE_Q16, · )`,
+    its sum with `OFFSET` and the whole of `silk_log2lin` fit 32 bits, and `silk_log2lin` is entered
+    strictly below its saturation point 3967. -/
+theorem gains_dequant_nowrap (first : Bool) (cond ind prev p : Int) (hi : -128 ≤ ind ∧ ind ≤ 127)
+    (hp : -128 ≤ prev ∧ prev ≤ 127) (hp0 : 0 ≤ p) (hp1 : p ≤ 63) :
+    (∀ v ∈ gainDequantPrevTrace first cond ind prev, I32 v) ∧ (∀ v ∈ gainOfIndexTrace p, I32 v) ∧
+    gainOfIndex p = log2linExact (min (SilkNlsf.gainInvScaleQ16 * p / 65536 + SilkNlsf.gainOffset) 3967) ∧
+    min (SilkNlsf.gainInvScaleQ16 * p / 65536 + SilkNlsf.gainOffset) 3967 < 3967 :=
+  ⟨gainDequantPrevTrace_range first cond ind prev hi hp, gainOfIndex_nowrap p hp0 hp1⟩
+
+example : gainDequantPrevTrace false 1 40 60 = [36, 68] ++ [96] ∧
+    (gainOfIndexTrace 63).take 3 = [1833, 3923, 3923] := by decide +kernel
+
+/-- `silk_decode_pitch` (decode_pitch.c:67-75) for `Fs_kHz ∈ {8,12,16}`, `nb_subfr ∈ {2,4}`, every
+    `opus_int16` lag index and a contour index inside the selected codebook: the `(opus_int16)` casts
+    inside the two `silk_SMULBB` are the identity (`min_lag = 2·Fs_kHz`, `max_lag = 18·Fs_kHz`) and every
+    `int` value (`pitchTrace`: `lag`, the table index `k·cbk_size + contourIndex`, `lag + Lag_CB_ptr[…]`,
+    the clamped lag) has magnitude at most `2^16`. -/
+theorem decode_pitch_nowrap (lagIndex contour fs : Int) (nb : Nat) (tab : List Int) (cbk : Nat)
+    (hfs : fs = 8 ∨ fs = 12 ∨ fs = 16) (hnb : nb = 2 ∨ nb = 4) (hl : I16 lagIndex)
+    (hcb : pitchCodebook fs nb = .ok (tab, cbk)) (hc : 0 ≤ contour ∧ contour < (cbk : Int)) :
+    pitchMinLag fs = SilkNlsf.peMinLagMs * fs ∧ pitchMaxLag fs = SilkNlsf.peMaxLagMs * fs ∧
+    ∀ v ∈ pitchTrace tab cbk lagIndex contour fs nb, -65536 ≤ v ∧ v ≤ 65536 :=
+  decodePitch_range lagIndex contour fs nb tab cbk hfs hnb hl hcb hc
+
+example : pitchCodebook 16 4 = .ok (SilkNlsf.cbLagsStage3, 34) ∧
+    pitchTrace SilkNlsf.cbLagsStage3 34 (-32768) 33 16 2 = [32, 288, -32736, 33, -32745, 32, 67, -32739, 32] := by
+  decide +kernel
 
 end OpusProps.C18
